@@ -146,6 +146,15 @@ func (f *fnSpec) dynFor(j int) int {
 // run is the common body: record the execution, decide by script what to return.
 // It returns the output values (one per Outs entry), whether the struct pointer is nil, and the error.
 func (f *fnSpec) run(got []reflect.Value) (outs []reflect.Value, nilPtr bool, err error) {
+	outs, nilPtr, err = f.runInner(got)
+	if raceMode && f.Once && err != nil {
+		// a failing first use returns late: an overlapping use that succeeded (there must be none) would be stored first
+		time.Sleep(2 * time.Millisecond)
+	}
+	return
+}
+
+func (f *fnSpec) runInner(got []reflect.Value) (outs []reflect.Value, nilPtr bool, err error) {
 	if raceMode && f.Once {
 		time.Sleep(300 * time.Microsecond) // overlapping first uses must stay overlapping
 	}
